@@ -72,6 +72,34 @@ func watchdog(d time.Duration, f func()) (ok bool, dump string) {
 	}
 }
 
+// watchdogProgress is watchdog for long operations made of many steps: when d
+// has passed it looks at a progress counter instead of giving up. As long as
+// the counter moved during the last window the operation is slow, not hung, and
+// gets another window (at most extra of them; still running after that is
+// reported as slow = inconclusive). A window without any progress is a hang.
+func watchdogProgress(d time.Duration, extra int, progress func() int64, f func()) (ok, slow bool, dump string) {
+	done := make(chan struct{})
+	go func() {
+		defer close(done)
+		f()
+	}()
+	last := progress()
+	for w := 0; ; w++ {
+		select {
+		case <-done:
+			return true, false, ""
+		case <-time.After(d):
+		}
+		now := progress()
+		if now == last || w >= extra {
+			buf := make([]byte, 1<<20)
+			n := runtime.Stack(buf, true)
+			return false, now != last, string(buf[:n])
+		}
+		last = now
+	}
+}
+
 // libraryGoroutines returns the stacks of goroutines that have a connect-go
 // (non-test-harness) frame.
 func libraryGoroutines() []string {
